@@ -46,9 +46,21 @@ def lattice(kind, n, seed, lo=40, hi=PMAX, vol=50):
     wick = 2 if hi - lo > 30 else 1
     for i in range(n):
         o = p
+        gap = 0
+        if kind == "gapped" and rng.random() < 0.35:
+            gap = rng.choice([-1, 1]) * rng.randint(4, 15)          # the whole candle lies beyond the previous close
+        elif kind == "staircase":
+            down = (i // 40) % 2 == 0
+            gap = -3 if down else 3
+        if gap:
+            o = min(max(p + gap, lo + 4), hi - 4)
         if kind == "flat":
             cl = o
             h = l = o
+        elif gap:
+            cl = o + (rng.randint(-1, 0) if o < p else rng.randint(0, 1))
+            h = max(o, cl) + (0 if o < p else rng.randint(0, 1))
+            l = min(o, cl) - (rng.randint(0, 1) if o < p else 0)
         else:
             if kind == "alternating":
                 cl = o + (3 if i % 2 == 0 else -3)
@@ -454,7 +466,7 @@ def plan(ctx):
     rng = random.Random(ctx.seed + 15)
     quick = ctx.quick
     n = ctx.pick(150, 240)
-    kinds = ["random", "trend", "spike", "flat", "alternating", "monotone"]
+    kinds = ["random", "trend", "spike", "flat", "alternating", "monotone", "gapped"]
     periods_all = list(range(2, 61))
     cases = []
 
@@ -493,6 +505,8 @@ def plan(ctx):
             for src in srcs:
                 j += 1
                 kd = ["random", "trend", "alternating", "monotone", "spike"][j % (4 if de == "rsi" else 5)]
+                if de in ("di_plus", "di_minus", "dm_plus", "dm_minus", "adx", "atr") and j % 2 == 0:
+                    kd = ["gapped", "staircase"][(j // 2) % 2]      # true range decided by the distance to the previous close
                 # definitions judged only after the seed bound has decayed need room for the decay
                 nn = ctx.pick(700, 1200) if (de in ("di_plus", "di_minus") or row[6] == 1) else nlong
                 cs = {"kind": "smooth", "row": row, "p": p, "src": src, "series": (kd, nn, 1 + j % 3)}
@@ -615,7 +629,7 @@ def plan(ctx):
             cases.append({"kind": "ma_single", "matype": mt, "p": p, "src": rng.choice(PRICE_SRC),
                           "lens": [200, 240, 241, 300, 400, 700, 1000], "series": (["random", "trend"][j % 2], 1000, 1 + j % 3)})
     for row in RANGES:
-        for kd in (["random", "spike", "flat", "monotone"] if quick else kinds):
+        for kd in (["random", "spike", "flat", "monotone", "gapped", "staircase"] if quick else kinds + ["staircase"]):
             j += 1
             cases.append({"kind": "range", "row": row, "series": (kd, n, 1 + j % 3)})
     for row in NONNEG:
